@@ -118,6 +118,57 @@ def mk(case, dtype=float):
     return big[crits].loc[alts]
 
 
+VARIANTS = ("direct", "direct", "copy", "rebuild", "positional", "fresh_strings", "numpy_scalars", "pickle", "copy_kw")
+
+
+def variant(cls, params, key, first_positional=None):
+    """An object of class `cls` configured with `params`, obtained one of the public ways a configured method can be
+    obtained (chosen by a hash of `key`, so that replays are exact): the constructor with keywords; copy(); rebuilt
+    from get_parameters(); the constructor with POSITIONAL arguments in the documented order; string parameters that
+    are equal to, but not the same object as, the literals in the source; numbers given as numpy scalars; a pickle
+    round trip; a default object + copy(**parameters).  By C16 / C20 all of these are the same method."""
+    import inspect
+    import pickle
+    if os.environ.get("SKC_MK_ROUTES", "1") == "0":
+        return cls(**params) if first_positional is None else cls(first_positional, **params)
+    args = () if first_positional is None else (first_positional,)
+    route = VARIANTS[zlib.crc32(json.dumps([cls.__name__, key], sort_keys=True, default=str).encode()) % len(VARIANTS)]
+    base = cls(*args, **params)
+    try:
+        if route == "copy":
+            return base.copy()
+        if route == "rebuild":
+            return cls(**base.get_parameters())
+        if route == "pickle":
+            try:
+                return pickle.loads(pickle.dumps(base))
+            except Exception:  # noqa: BLE001   (a parameter that cannot be pickled is the caller's business)
+                return base
+        if route == "copy_kw" and first_positional is None and params:
+            return cls().copy(**params)
+        if route == "positional" and params:
+            sig = [n for n, q in inspect.signature(cls.__init__).parameters.items()
+                   if n != "self" and q.kind in (q.POSITIONAL_ONLY, q.POSITIONAL_OR_KEYWORD)]
+            sig = sig[len(args):]
+            pos, rest = [], dict(params)
+            for n in sig:           # a prefix of the positional parameters, the rest by keyword
+                if n in rest:
+                    pos.append(rest.pop(n))
+                else:
+                    break
+            return cls(*args, *pos, **rest)
+        if route == "fresh_strings":
+            kw = {k: ("".join(list(v)) if isinstance(v, str) else v) for k, v in params.items()}
+            return cls(*args, **kw)
+        if route == "numpy_scalars":
+            kw = {k: (np.float64(v) if isinstance(v, float) else np.int64(v) if isinstance(v, int) and not isinstance(v, bool)
+                      else np.str_(v) if isinstance(v, str) else v) for k, v in params.items()}
+            return cls(*args, **kw)
+    except TypeError:
+        return base
+    return base
+
+
 def exc_code(e):
     if isinstance(e, ValueError):
         return Err(1)
